@@ -176,7 +176,10 @@ struct Prog {
     case 9: { Obj& q = partner(o); c.log << "  time_elapse_assign obj" << (&q - &pool[0]) << "\n"; rl::Grid e = rl::Grid::make_empty(n), qm = q.m;
       if (!o.m.empty && !q.m.empty) { e = o.m; e.add_param(q.m.p); for (size_t i = 0; i < q.m.params.size(); ++i) e.add_param(q.m.params[i]); for (size_t i = 0; i < q.m.lines.size(); ++i) e.add_line(q.m.lines[i]); }
       o.g.time_elapse_assign(q.g); settle(o, "time_elapse_assign", e); arg_unchanged(q, qm, "time_elapse_assign"); break; }
-    case 10: { if (n >= 4) break; size_t m = t.range(1, 2); bool emb = t.chance(50); c.log << "  add_space_dimensions_and_" << (emb ? "embed " : "project ") << m << "\n"; rl::Grid e = emb ? rl::embed(o.m, m) : rl::project(o.m, m);
+    case 10: { if (n >= 4) break; size_t m = t.range(1, 2); bool emb = t.chance(50);
+      // KF-C05-2: projecting the zero-dimensional universe grid gives the universe instead of the origin (tests/Grid/addspacedims1 test17 expects that)
+      if (!emb && n == 0 && !o.m.empty && kf("KF-C05-2")) { c.excluded("KF-C05-2"); emb = true; }
+      c.log << "  add_space_dimensions_and_" << (emb ? "embed " : "project ") << m << "\n"; rl::Grid e = emb ? rl::embed(o.m, m) : rl::project(o.m, m);
       if (emb) o.g.add_space_dimensions_and_embed(m); else o.g.add_space_dimensions_and_project(m); o.n = n + m; settle(o, "add_space_dimensions", e); break; }
     case 11: { if (n == 0) break; std::vector<long> keep(n, -1); Variables_Set vs; bool higher = t.chance(30); size_t n2 = 0;
       if (higher) { size_t nd = t.range(0, (long) n); for (size_t k = 0; k < nd; ++k) keep[k] = (long) n2++; c.log << "  remove_higher_space_dimensions " << nd << "\n"; o.g.remove_higher_space_dimensions(nd); }
